@@ -281,6 +281,25 @@ def execute_a(case, ctx):
     if _batch_shape_ok(ctx, again, N, bs, "reread|" + tag):
         _verify_ids(ctx, again, src, N, shuffle, "reread|" + tag, ename)
 
+    # re-wrapping: a training set that is kept across epochs is wrapped again with the new baseline values
+    # (RolloutBaseline.wrap_dataset -> dataset.add_key("extra", ...)) after it has already been read: the new
+    # values must be the ones that come out
+    if ex is not None and cls in ("tdd", "fast", "fastgen", "default", "extrakey") and hasattr(ds, "add_key") is not None:
+        base_ds = getattr(ds, "dataset", ds)
+        if hasattr(base_ds, "add_key"):
+            evals2 = _col(ex["dt"], N, ex["shape"], case["seed"] * 8 + 5)
+            if evals2.dtype != torch.bool:
+                evals2 = evals2 + evals2.new_ones(()) if evals2.dtype.is_floating_point else evals2 + 1
+            ds2 = ctx.guard(base_ds.add_key, ename, evals2.clone(), what=f"add_key_again|{cls}")
+            src2 = dict(src)
+            src2[ename] = evals2.clone()
+            ds_prev, ds = ds, ds2
+            third = one_pass()
+            if _batch_shape_ok(ctx, third, N, bs, "rewrap|" + tag):
+                _verify_ids(ctx, third, src2, N, shuffle, "rewrap|" + tag, ename)
+            ds = ds_prev
+            ctx.event("rewrapped_with_new_extra")
+
     partial = N % bs != 0
     ctx.event(f"cls={cls}")
     ctx.event(f"type={type(ds).__name__}")
